@@ -1963,6 +1963,7 @@ func cutSpaces(first, last *ast.Text) {
 		last.Cut.Left = lastCut
 	}
 	if first != nil {
-		first.Cut.Right = len(first.Text) - firstCut
+		// first may already be cut on the left, if it also ended a previous line.
+		first.Cut.Right = len(first.Text) - max(firstCut, first.Cut.Left)
 	}
 }
